@@ -12,6 +12,9 @@
 //! its tree field by field (numbers by value; the scale must be max(tree scale, configured precision)).
 //! For the shapes with a simple sign rule the built numbers are also compared with an independent exact
 //! reading (crate::q::Q) of the statement cells (`statement-value-differs-*`).
+//! State carried from one record to the next is caught by two metamorphic clauses: the plain anchor record must be
+//! imported and printed identically whatever the other record is (`anchor-record-depends-on-other-record-*`, both
+//! file orders), and date-less CSV rows must not change the number of transactions (`record-count`).
 //!
 //! Violation signatures are `<clause>/<cause>`: the clause is the first symptom (reparse-fails,
 //! extra-transaction, extra-posting, reread-differs-<tree field>, ...), the cause is the smallest
@@ -34,7 +37,7 @@ pub const DEF: CheckDef = CheckDef {
     id: "C15",
     run,
     technique: "bounded-exhaustive enumeration of statement records (field alphabets, all records with <= d non-plain fields) for the CSV, Camt053 and Viseca importers; differential oracle: importer-built syntax tree versus okane's own parser applied to the text printed by the real ImportCmd::run; violating cases are reduced to their smallest violating sub-set of non-plain fields, which names the signature",
-    rule: "case = (shape, precision, record). 15 shapes: csv-basic (index columns, liability, code+payee split by a rewrite rule, note, commodity column, balance), csv-credit-debit (label columns, tab delimiter, a 50-column account name so that the amount column overflows), csv-multi (rate, secondary amount/commodity, charge, conversion mode), csv-template (payee = '{category} - {note}', new_to_old), camt-<source> for the 7 text elements a rewrite rule can copy into the payee (creditor, debtor, ultimate creditor/debtor name, remittance info, additional transaction/entry info) each with AcctSvcrRef as code and booking date != value date, camt-entry-only (no TxDtls), camt-numeric (amounts, currency, TxAmt+CcyXchg, charges, opening/closing balance), viseca-basic, viseca-fx. Text alphabet (21): plain, semicolon, lparen, rparen, star, bang, digit-date, double-space, tab, leading-blank, trailing-blank, newline, newline-indent (an indented posting line), newline-date (a dated header line), cr, word-tag, key-value, cjk, empty, equals-at, long. Numeric alphabet: plain, 1,234.50, -0.5, CHF 12.00, $1.46, .02, 0, 12.345, and absent/present for optional columns (Viseca: plain, 1'234.50, .02, 0, 5, 1.2.3, 12.345). Commodity alphabet: plain, empty, $, 'US D', BRK.B, 'A;B'. CSV amount/credit/debit/balance cells of csv-basic and csv-credit-debit additionally take the sign placements -$12.50, $-12.50, $-1,234.50, USD -20, -USD 20, -20 USD and are compared with an independent exact reading of the cell (sign rule of the shape applied). The configured operator of the charge-printing shapes (csv-multi, csv-template, camt-entry-only, camt-numeric, viseca-fx) takes plain, trailing newline, blank-padded, inner double blank, ';', inner newline. Every statement carries the tested record followed by one plain anchor record. Precision of CHF/USD/EUR/VYM in {none,2,4}. ALL records with <= 2 (quick) / <= 3 (thorough) non-plain fields. Plus the layout-boundary family: for one CSV, one Camt053 and one Viseca shape the configured account and the rewrite (counter) account (cleared and pending) take every display width 1..=64 (ASCII; CSV also names with wide CJK characters; thorough: full 64x64 product for CSV) x 4-5 amount spellings of different printed widths and both signs x precision {none,2,4} x with/without running balance. states = statements imported (incl. minimisation re-runs), transitions = transactions compared field by field",
+    rule: "case = (shape, precision, record). 15 shapes: csv-basic (index columns, liability, code+payee split by a rewrite rule, note, commodity column, balance), csv-credit-debit (label columns, tab delimiter, a 50-column account name so that the amount column overflows), csv-multi (rate, secondary amount/commodity, charge, conversion mode), csv-template (payee = '{category} - {note}', new_to_old), camt-<source> for the 7 text elements a rewrite rule can copy into the payee (creditor, debtor, ultimate creditor/debtor name, remittance info, additional transaction/entry info) each with AcctSvcrRef as code and booking date != value date, camt-entry-only (no TxDtls), camt-numeric (amounts, currency, TxAmt+CcyXchg, charges, opening/closing balance), viseca-basic, viseca-fx. Text alphabet (21): plain, semicolon, lparen, rparen, star, bang, digit-date, double-space, tab, leading-blank, trailing-blank, newline, newline-indent (an indented posting line), newline-date (a dated header line), cr, word-tag, key-value, cjk, empty, equals-at, long. Numeric alphabet: plain, 1,234.50, -0.5, CHF 12.00, $1.46, .02, 0, 12.345, and absent/present for optional columns (Viseca: plain, 1'234.50, .02, 0, 5, 1.2.3, 12.345). Commodity alphabet: plain, empty, $, 'US D', BRK.B, 'A;B'. CSV amount/credit/debit/balance cells of csv-basic and csv-credit-debit additionally take the sign placements -$12.50, $-12.50, $-1,234.50, USD -20, -USD 20, -20 USD and are compared with an independent exact reading of the cell (sign rule of the shape applied). The configured operator of the charge-printing shapes (csv-multi, csv-template, camt-entry-only, camt-numeric, viseca-fx) takes plain, trailing newline, blank-padded, inner double blank, ';', inner newline. Every statement carries the tested record followed by one plain anchor record. Precision of CHF/USD/EUR/VYM in {none,2,4}. ALL records with <= 2 (quick) / <= 3 (thorough) non-plain fields. The four CSV shapes also carry a row choice: a date-less row (all cells empty but the payee) before / between / after the two records, which must not change the number of transactions. Anchor independence: the transaction (tree and printed text) of the plain anchor record must be identical to the one of the statement whose tested record is all plain (same configuration and statement-level fields); every record with one non-plain field less is also run with the file order of the two records swapped. Plus the layout-boundary family: for one CSV, one Camt053 and one Viseca shape the configured account and the rewrite (counter) account (cleared and pending) take every display width 1..=64 (ASCII; CSV also names with wide CJK characters; thorough: full 64x64 product for CSV) x 4-5 amount spellings of different printed widths and both signs x precision {none,2,4} x with/without running balance. states = statements imported (incl. minimisation re-runs), transitions = transactions compared field by field",
     assumptions: &[
         "the tree is built in the harness by the same public calls as ImportCmd::run (load_from_yaml, ConfigSet::select, import::import, Txn::to_double_entry) on the same scratch files, reading the file as UTF-8 bytes without encoding_rs_io (identical for the BOM-less UTF-8 statements generated here)",
         "text that the importer trims / splits / rejects before building the tree is not judged (tree vs re-read text only); records the importer rejects are DON'T-CARE",
@@ -239,6 +242,7 @@ fn shapes() -> Vec<Shape> {
             commodity("commodity", "commodity", "CHF"),
             signed(num("amount", "amount", "5", NUM_KINDS)),
             signed(opt_num("balance", "balance", "100", NUM_KINDS)),
+            choice("dateless-row", "row", &[("none", ""), ("dateless-before", "before"), ("dateless-between", "between"), ("dateless-after", "after")]),
         ],
     });
     v.push(Shape {
@@ -248,6 +252,7 @@ fn shapes() -> Vec<Shape> {
             signed(opt_num("credit", "amount", "5", NUM_KINDS)),
             signed(num_or_absent("debit", "amount", "5", NUM_KINDS)),
             signed(num_or_absent("balance", "balance", "100", NUM_KINDS)),
+            choice("dateless-row", "row", &[("none", ""), ("dateless-before", "before"), ("dateless-between", "between"), ("dateless-after", "after")]),
         ],
     });
     v.push(Shape {
@@ -266,6 +271,7 @@ fn shapes() -> Vec<Shape> {
                 &[("extract/price_of_secondary", "extract price_of_secondary"), ("compute/price_of_secondary", "compute price_of_secondary"), ("extract/price_of_primary", "extract price_of_primary"), ("compute/price_of_primary", "compute price_of_primary")],
             ),
             operator("Okane Bank (commission)"),
+            choice("dateless-row", "row", &[("none", ""), ("dateless-before", "before"), ("dateless-between", "between"), ("dateless-after", "after")]),
         ],
     });
     v.push(Shape {
@@ -280,6 +286,7 @@ fn shapes() -> Vec<Shape> {
             opt_num("fees", "charge", "0.5", NUM_KINDS),
             num("amount", "amount", "-121.5", NUM_KINDS),
             operator("Broker Schrank"),
+            choice("dateless-row", "row", &[("none", ""), ("dateless-before", "before"), ("dateless-between", "between"), ("dateless-after", "after")]),
         ],
     });
     for (i, (label, _)) in CAMT_SOURCES.iter().enumerate() {
@@ -332,6 +339,14 @@ fn shapes() -> Vec<Shape> {
 }
 
 const PRECS: [Option<u8>; 3] = [None, Some(2), Some(4)];
+/// A case option `pi` in 0..6 packs the precision (pi % 3) and the record order (pi >= 3: the file order of the
+/// tested record and the anchor record is swapped).
+fn opt_prec(pi: usize) -> Option<u8> {
+    PRECS[pi % 3]
+}
+fn opt_swap(pi: usize) -> bool {
+    pi >= 3
+}
 /// commodities that get the configured precision (JPY and everything else stays unconfigured)
 const PREC_COMMODITIES: [&str; 4] = ["CHF", "USD", "EUR", "VYM"];
 
@@ -343,6 +358,8 @@ struct Rendered {
     records: usize,
     /// values the statement cells dictate for the built tree (independent reference, exact rationals)
     expect: Vec<Expect>,
+    /// index (import order) of the transaction of the plain anchor record; None in the layout family
+    anchor_txn: Option<usize>,
 }
 
 /// One number of the built tree that is dictated by a statement cell.
@@ -415,8 +432,30 @@ fn xml_escape(s: &str) -> String {
 
 type Vals<'a> = Vec<Option<&'a str>>;
 
-fn render(shape: &Shape, prec: Option<u8>, v: &Vals) -> Rendered {
+/// Puts header, the tested block, the anchor block and the optional date-less row (all cells empty but the
+/// payee) together in file order. `anchor_first`: the anchor block precedes the tested block in the file.
+fn assemble(header: &str, tested: &str, anchor: &str, anchor_first: bool, dateless: &str, dateless_row: &str) -> String {
+    let (a, b) = if anchor_first { (anchor, tested) } else { (tested, anchor) };
+    let mut s = String::from(header);
+    if dateless == "before" {
+        s.push_str(dateless_row);
+    }
+    s.push_str(a);
+    if dateless == "between" {
+        s.push_str(dateless_row);
+    }
+    s.push_str(b);
+    if dateless == "after" {
+        s.push_str(dateless_row);
+    }
+    s
+}
+
+/// `swap`: the file order of the tested record and the anchor record is exchanged.
+fn render(shape: &Shape, prec: Option<u8>, v: &Vals, swap: bool) -> Rendered {
     let g = |i: usize| -> &str { v[i].unwrap_or("") };
+    // import order: tested first, anchor second, unless swapped
+    let (t_idx, a_idx) = if swap { (1usize, 0usize) } else { (0usize, 1usize) };
     match shape.kind {
         Kind::CsvBasic => {
             let payee_cell = match v[1] {
@@ -427,28 +466,38 @@ fn render(shape: &Shape, prec: Option<u8>, v: &Vals) -> Rendered {
                 "path: \".csv\"\nencoding: UTF-8\naccount: \"Liabilities:Okane Card\"\naccount_type: liability\ncommodity: CHF\nformat:\n  date: \"%Y-%m-%d\"\n  fields:\n    date: 1\n    payee: 2\n    amount: 3\n    note: 4\n    balance: 5\n    commodity: 6\n{}rewrite:\n  - matcher:\n      payee: '(?s)^REF (?P<code>.*?) // (?P<payee>.*)$'\n  - matcher:\n      payee: Grocery\n    account: Expenses:Grocery\n",
                 yaml_precisions(prec)
             );
-            let mut st = csv_row(&["date", "payee", "amount", "note", "balance", "commodity"], ',');
-            st.push_str(&csv_row(&["2024-01-05", &payee_cell, g(4), g(2), g(5), g(3)], ','));
-            st.push_str(&csv_row(&["2024-01-06", "Migros Grocery", "20.5", "anchor memo", "", "CHF"], ','));
+            let st = assemble(
+                &csv_row(&["date", "payee", "amount", "note", "balance", "commodity"], ','),
+                &csv_row(&["2024-01-05", &payee_cell, g(4), g(2), g(5), g(3)], ','),
+                &csv_row(&["2024-01-06", "Migros Grocery", "20.5", "anchor memo", "", "CHF"], ','),
+                swap,
+                g(6),
+                &csv_row(&["", "Sub-total", "", "", "", ""], ','),
+            );
             // liability: the statement-account posting carries -cell, the counter posting +cell; balance as written
             let mut expect = vec![];
             if let Some(a) = cell_value(g(4)) {
-                expect.push(Expect { txn: 0, source: true, balance: false, value: a.neg(), why: format!("amount cell {:?} of a liability account is booked negated", g(4)) });
-                expect.push(Expect { txn: 0, source: false, balance: false, value: a, why: format!("counter posting of the amount cell {:?}", g(4)) });
+                expect.push(Expect { txn: t_idx, source: true, balance: false, value: a.neg(), why: format!("amount cell {:?} of a liability account is booked negated", g(4)) });
+                expect.push(Expect { txn: t_idx, source: false, balance: false, value: a, why: format!("counter posting of the amount cell {:?}", g(4)) });
             }
             if let Some(b) = v[5].and_then(cell_value) {
-                expect.push(Expect { txn: 0, source: true, balance: true, value: b, why: format!("balance cell {:?}", g(5)) });
+                expect.push(Expect { txn: t_idx, source: true, balance: true, value: b, why: format!("balance cell {:?}", g(5)) });
             }
-            Rendered { config, statement: st, ext: "csv", records: 2, expect }
+            Rendered { config, statement: st, ext: "csv", records: 2, expect, anchor_txn: Some(a_idx) }
         }
         Kind::CsvCreditDebit => {
             let config = format!(
                 "path: \".csv\"\nencoding: UTF-8\naccount: \"Assets:Okane Bank:Savings:Joint Account With Hanako\"\naccount_type: asset\ncommodity: CHF\nformat:\n  date: \"%Y/%m/%d\"\n  delimiter: \"\\t\"\n  fields:\n    date: 日付\n    payee: 摘要\n    debit: 引き出し額\n    credit: 預け入れ額\n    balance: 口座残高\n{}rewrite:\n  - matcher:\n      payee: Grocery\n    account: Expenses:Grocery\n",
                 yaml_precisions(prec)
             );
-            let mut st = csv_row(&["日付", "摘要", "預け入れ額", "引き出し額", "口座残高"], '\t');
-            st.push_str(&csv_row(&["2024/01/05", "Coffee Shop", g(0), g(1), g(2)], '\t'));
-            st.push_str(&csv_row(&["2024/01/06", "Migros Grocery", "", "20.5", ""], '\t'));
+            let st = assemble(
+                &csv_row(&["日付", "摘要", "預け入れ額", "引き出し額", "口座残高"], '\t'),
+                &csv_row(&["2024/01/05", "Coffee Shop", g(0), g(1), g(2)], '\t'),
+                &csv_row(&["2024/01/06", "Migros Grocery", "", "20.5", ""], '\t'),
+                swap,
+                g(3),
+                &csv_row(&["", "Sub-total", "", "", ""], '\t'),
+            );
             // exactly one of credit / debit filled in: +credit or -debit on the statement account (both: not judged here)
             let mut expect = vec![];
             let signed_value = match (g(0).is_empty(), g(1).is_empty()) {
@@ -457,13 +506,13 @@ fn render(shape: &Shape, prec: Option<u8>, v: &Vals) -> Rendered {
                 _ => None,
             };
             if let Some((a, why)) = signed_value {
-                expect.push(Expect { txn: 0, source: true, balance: false, value: a, why: why.clone() });
-                expect.push(Expect { txn: 0, source: false, balance: false, value: a.neg(), why: format!("counter posting of the {}", why) });
+                expect.push(Expect { txn: t_idx, source: true, balance: false, value: a, why: why.clone() });
+                expect.push(Expect { txn: t_idx, source: false, balance: false, value: a.neg(), why: format!("counter posting of the {}", why) });
             }
             if let Some(b) = v[2].and_then(cell_value) {
-                expect.push(Expect { txn: 0, source: true, balance: true, value: b, why: format!("balance cell {:?}", g(2)) });
+                expect.push(Expect { txn: t_idx, source: true, balance: true, value: b, why: format!("balance cell {:?}", g(2)) });
             }
-            Rendered { config, statement: st, ext: "csv", records: 2, expect }
+            Rendered { config, statement: st, ext: "csv", records: 2, expect, anchor_txn: Some(a_idx) }
         }
         Kind::CsvMulti => {
             let (amode, rmode) = g(6).split_once(' ').expect("conversion mode");
@@ -474,10 +523,15 @@ fn render(shape: &Shape, prec: Option<u8>, v: &Vals) -> Rendered {
                 rmode,
                 yaml_precisions(prec)
             );
-            let mut st = csv_row(&["date", "payee", "amount", "commodity", "rate", "secondary_amount", "secondary_commodity", "charge"], ',');
-            st.push_str(&csv_row(&["2024-01-05", "Wire to Japan", g(2), g(0), g(3), g(4), g(1), g(5)], ','));
-            st.push_str(&csv_row(&["2024-01-06", "Migros Grocery", "-20.5", "CHF", "", "", "", ""], ','));
-            Rendered { config, statement: st, ext: "csv", records: 2, expect: vec![] }
+            let st = assemble(
+                &csv_row(&["date", "payee", "amount", "commodity", "rate", "secondary_amount", "secondary_commodity", "charge"], ','),
+                &csv_row(&["2024-01-05", "Wire to Japan", g(2), g(0), g(3), g(4), g(1), g(5)], ','),
+                &csv_row(&["2024-01-06", "Migros Grocery", "-20.5", "CHF", "", "", "", ""], ','),
+                swap,
+                g(8),
+                &csv_row(&["", "Sub-total", "", "", "", "", "", ""], ','),
+            );
+            Rendered { config, statement: st, ext: "csv", records: 2, expect: vec![], anchor_txn: Some(a_idx) }
         }
         Kind::CsvTemplate => {
             let config = format!(
@@ -485,11 +539,17 @@ fn render(shape: &Shape, prec: Option<u8>, v: &Vals) -> Rendered {
                 yaml_dq(g(7)),
                 yaml_precisions(prec)
             );
-            let mut st = csv_row(&["Date", "Action", "Symbol", "Description", "Quantity", "Price", "Fees & Comm", "Amount"], ',');
-            // new_to_old: the anchor (newer) comes first in the file, the tested record is the older one
-            st.push_str(&csv_row(&["01/06/2024", "Credit Interest", "", "SCHWAB1 INT", "", "", "", "$6.60"], ','));
-            st.push_str(&csv_row(&["01/05/2024", g(0), g(2), g(1), g(3), g(4), g(5), g(6)], ','));
-            Rendered { config, statement: st, ext: "csv", records: 2, expect: vec![] }
+            // new_to_old: by default the anchor (newer) comes first in the file and the tested record is the older
+            // one; the importer reverses, so the import order is tested, anchor (swapped: anchor, tested)
+            let st = assemble(
+                &csv_row(&["Date", "Action", "Symbol", "Description", "Quantity", "Price", "Fees & Comm", "Amount"], ','),
+                &csv_row(&["01/05/2024", g(0), g(2), g(1), g(3), g(4), g(5), g(6)], ','),
+                &csv_row(&["01/06/2024", "Credit Interest", "", "SCHWAB1 INT", "", "", "", "$6.60"], ','),
+                !swap,
+                g(8),
+                &csv_row(&["", "", "", "Sub-total", "", "", "", ""], ','),
+            );
+            Rendered { config, statement: st, ext: "csv", records: 2, expect: vec![], anchor_txn: Some(a_idx) }
         }
         Kind::CamtText(k) => {
             let mut e = CamtEntry::plain();
@@ -504,7 +564,7 @@ fn render(shape: &Shape, prec: Option<u8>, v: &Vals) -> Rendered {
                 6 => e.addtl_ntry = g(1),
                 _ => unreachable!(),
             }
-            Rendered { config: camt_config(prec, CAMT_SOURCES[k].1, "Okane Bank (fee)"), statement: camt_doc(&[e, CamtEntry::anchor(k)], Some("100"), Some("74.5")), ext: "xml", records: 3, expect: vec![] }
+            Rendered { config: camt_config(prec, CAMT_SOURCES[k].1, "Okane Bank (fee)"), statement: camt_doc(&ordered(e, CamtEntry::anchor(k), swap), Some("100"), Some("74.5")), ext: "xml", records: 3, expect: vec![], anchor_txn: Some(1 + a_idx) }
         }
         Kind::CamtEntryOnly => {
             let mut e = CamtEntry::plain();
@@ -512,7 +572,7 @@ fn render(shape: &Shape, prec: Option<u8>, v: &Vals) -> Rendered {
             e.addtl_ntry = g(0);
             e.amt = g(1);
             e.entry_charge = v[2].map(|a| (a, true));
-            Rendered { config: camt_config(prec, "additional_entry_info", g(3)), statement: camt_doc(&[e, CamtEntry::anchor(6)], Some("100"), Some("74.5")), ext: "xml", records: 3, expect: vec![] }
+            Rendered { config: camt_config(prec, "additional_entry_info", g(3)), statement: camt_doc(&ordered(e, CamtEntry::anchor(6), swap), Some("100"), Some("74.5")), ext: "xml", records: 3, expect: vec![], anchor_txn: Some(1 + a_idx) }
         }
         Kind::CamtNum => {
             let mut e = CamtEntry::plain();
@@ -523,28 +583,38 @@ fn render(shape: &Shape, prec: Option<u8>, v: &Vals) -> Rendered {
             e.tx_charge = v[5].map(|a| (a, true));
             e.entry_charge = v[6].map(|a| (a, false));
             let records = 2 + if v[7].is_some() { 1 } else { 0 };
-            Rendered { config: camt_config(prec, "creditor_name", g(9)), statement: camt_doc(&[e, CamtEntry::anchor(0)], v[7], v[8]), ext: "xml", records, expect: vec![] }
+            Rendered { config: camt_config(prec, "creditor_name", g(9)), statement: camt_doc(&ordered(e, CamtEntry::anchor(0), swap), v[7], v[8]), ext: "xml", records, expect: vec![], anchor_txn: Some(records - 2 + a_idx) }
         }
         Kind::VisecaBasic => {
-            let mut st = format!("04.01.24 05.01.24 {} {}{}\n", g(0), g(2), g(3));
+            let mut t = format!("04.01.24 05.01.24 {} {}{}\n", g(0), g(2), g(3));
             if let Some(c) = v[1] {
-                st.push_str(c);
-                st.push('\n');
+                t.push_str(c);
+                t.push('\n');
             }
-            st.push_str("10.01.24 11.01.24 Migros Grocery 20.50\nGrocery stores\n");
-            Rendered { config: viseca_config(prec, "Okane Card (fee)"), statement: st, ext: "txt", records: 2, expect: vec![] }
+            let st = assemble("", &t, VISECA_ANCHOR, swap, "", "");
+            Rendered { config: viseca_config(prec, "Okane Card (fee)"), statement: st, ext: "txt", records: 2, expect: vec![], anchor_txn: Some(a_idx) }
         }
         Kind::VisecaFx => {
-            let mut st = format!("04.01.24 05.01.24 {} {} {} {}{}\nService stations\n", g(0), g(1), g(2), g(3), g(8));
+            let mut t = format!("04.01.24 05.01.24 {} {} {} {}{}\nService stations\n", g(0), g(1), g(2), g(3), g(8));
             if let Some(r) = v[4] {
-                st.push_str(&format!("Exchange rate {} of 05.01.24 CHF {}\n", r, g(5)));
+                t.push_str(&format!("Exchange rate {} of 05.01.24 CHF {}\n", r, g(5)));
             }
             if g(6) != "-" {
-                st.push_str(&format!("{} 1.75% CHF {}\n", g(6), g(7)));
+                t.push_str(&format!("{} 1.75% CHF {}\n", g(6), g(7)));
             }
-            st.push_str("10.01.24 11.01.24 Migros Grocery 20.50\nGrocery stores\n");
-            Rendered { config: viseca_config(prec, g(9)), statement: st, ext: "txt", records: 2, expect: vec![] }
+            let st = assemble("", &t, VISECA_ANCHOR, swap, "", "");
+            Rendered { config: viseca_config(prec, g(9)), statement: st, ext: "txt", records: 2, expect: vec![], anchor_txn: Some(a_idx) }
         }
+    }
+}
+
+const VISECA_ANCHOR: &str = "10.01.24 11.01.24 Migros Grocery 20.50\nGrocery stores\n";
+
+fn ordered<'a>(tested: CamtEntry<'a>, anchor: CamtEntry<'a>, swap: bool) -> [CamtEntry<'a>; 2] {
+    if swap {
+        [anchor, tested]
+    } else {
+        [tested, anchor]
     }
 }
 
@@ -709,7 +779,8 @@ type Devs = Vec<(u8, u8)>;
 enum Judgement {
     /// importer rejected the statement (both the library call and the CLI)
     Rejected(String),
-    Ok { class: String },
+    /// `anchor`: (debug print of the anchor's tree, printed text of the anchor's transaction)
+    Ok { class: String, anchor: Option<(String, String)> },
     Bad { clause: String, detail: String },
 }
 
@@ -730,10 +801,11 @@ fn values<'a>(shape: &'a Shape, devs: &Devs) -> Vals<'a> {
     shape.fields.iter().zip(idx).map(|(f, i)| f.alts[i].value.as_deref()).collect()
 }
 
-fn describe(shape: &Shape, prec: Option<u8>, devs: &Devs) -> String {
-    let r = render(shape, prec, &values(shape, devs));
+fn describe(shape: &Shape, pi: usize, devs: &Devs) -> String {
+    let prec = opt_prec(pi);
+    let r = render(shape, prec, &values(shape, devs), opt_swap(pi));
     let d: Vec<String> = devs.iter().map(|(f, a)| format!("{}={} {:?}", shape.fields[*f as usize].name, shape.fields[*f as usize].alts[*a as usize].label, shape.fields[*f as usize].alts[*a as usize].value)).collect();
-    format!("shape {} precision {:?} non-plain fields [{}]\n--- config ---\n{}--- statement (.{}) ---\n{}", shape.name, prec, d.join(", "), r.config, r.ext, r.statement)
+    format!("shape {} precision {:?}{} non-plain fields [{}]\n--- config ---\n{}--- statement (.{}) ---\n{}", shape.name, prec, if opt_swap(pi) { " record order swapped (anchor record imported first)" } else { "" }, d.join(", "), r.config, r.ext, r.statement)
 }
 
 fn err_chain(e: &dyn std::error::Error) -> String {
@@ -767,13 +839,27 @@ fn judge(env: &Env, si: usize, pi: usize, devs: &Devs) -> Judgement {
 
 fn judge_uncached(env: &Env, si: usize, pi: usize, devs: &Devs) -> Judgement {
     let shape = &env.shapes[si];
-    let prec = PRECS[pi];
-    let r = render(shape, prec, &values(shape, devs));
-    judge_rendered(env, &r, prec)
+    let prec = opt_prec(pi);
+    let r = render(shape, prec, &values(shape, devs), opt_swap(pi));
+    // anchor independence: the reference is the statement with the same configuration and statement-level
+    // fields whose tested record is all plain
+    let bdevs: Devs = devs.iter().filter(|(f, _)| STATEMENT_LEVEL_FIELDS.contains(&shape.fields[*f as usize].name)).cloned().collect();
+    let reference = if bdevs != *devs {
+        match judge(env, si, pi, &bdevs) {
+            Judgement::Ok { anchor, .. } => anchor,
+            _ => None,
+        }
+    } else {
+        None
+    };
+    judge_rendered(env, &r, prec, reference.as_ref())
 }
 
+/// fields that belong to the configuration or to the statement as a whole (kept in the anchor reference)
+const STATEMENT_LEVEL_FIELDS: &[&str] = &["conversion", "operator", "opening-balance", "closing-balance"];
+
 /// Runs the real command and the real library calls on one rendered (config, statement) pair and compares.
-fn judge_rendered(env: &Env, r: &Rendered, prec: Option<u8>) -> Judgement {
+fn judge_rendered(env: &Env, r: &Rendered, prec: Option<u8>, anchor_reference: Option<&(String, String)>) -> Judgement {
     *env.runs.borrow_mut() += 1;
     let cfg_path = env.dir.join("config.yml");
     let src_path = env.dir.join(format!("statement.{}", r.ext));
@@ -891,6 +977,19 @@ fn judge_rendered(env: &Env, r: &Rendered, prec: Option<u8>) -> Judgement {
             return Judgement::Bad { clause: symptom, detail: show(format!("transaction #{}: {}\n--- tree built by the importer ---\n{:#?}", i + 1, what, t)) };
         }
     }
+    // ---- anchor independence: the plain anchor record is imported and printed the same whatever the other record is ----
+    let anchor = r.anchor_txn.map(|i| {
+        let chunks: Vec<&str> = text.split("\n\n").filter(|c| !c.trim().is_empty()).collect();
+        (format!("{:#?}", trees[i]), if chunks.len() == trees.len() { chunks[i].to_string() } else { String::new() })
+    });
+    if let (Some((tree_now, text_now)), Some((tree_ref, text_ref))) = (&anchor, anchor_reference) {
+        if tree_now != tree_ref {
+            return Judgement::Bad { clause: "anchor-record-depends-on-other-record-tree".into(), detail: show(format!("the plain anchor record is imported differently next to this record than next to a plain record\n--- anchor transaction built here ---\n{}\n--- anchor transaction built next to a plain record ---\n{}", tree_now, tree_ref)) };
+        }
+        if text_now != text_ref {
+            return Judgement::Bad { clause: "anchor-record-depends-on-other-record-text".into(), detail: show(format!("the plain anchor record is printed differently next to this record than next to a plain record\n--- here ---\n{}\n--- next to a plain record ---\n{}", text_now, text_ref)) };
+        }
+    }
     // class: which syntactic features were exercised
     let mut flags: Vec<&str> = vec![];
     let any = |f: &dyn Fn(&plain::Transaction) -> bool| trees.iter().any(|t| f(t));
@@ -916,7 +1015,7 @@ fn judge_rendered(env: &Env, r: &Rendered, prec: Option<u8>) -> Judgement {
         flags.push("pending");
     }
     let padded = prec.is_some();
-    Judgement::Ok { class: format!("roundtrip-ok/{}/{}{}", r.ext, if flags.is_empty() { "bare".to_string() } else { flags.join("+") }, if padded { "/padded" } else { "" }) }
+    Judgement::Ok { class: format!("roundtrip-ok/{}/{}{}", r.ext, if flags.is_empty() { "bare".to_string() } else { flags.join("+") }, if padded { "/padded" } else { "" }), anchor }
 }
 
 fn configured_precision(prec: Option<u8>, commodity: &str) -> u32 {
@@ -1037,12 +1136,24 @@ fn is_bad(j: &Judgement) -> bool {
 /// so the search always ends. (A greedy one-at-a-time reduction is not enough: removing one field of a
 /// record can turn it into one the importer rejects, which hides a smaller violating sub-set.)
 fn minimise(env: &Env, si: usize, pi: usize, devs: &Devs) -> (usize, Devs) {
-    let n = devs.len() + if pi != 0 { 1 } else { 0 };
+    let (prec_i, swap) = (pi % 3, opt_swap(pi));
+    let nd = devs.len();
+    let n = nd + if prec_i != 0 { 1 } else { 0 } + if swap { 1 } else { 0 };
     let mut masks: Vec<u32> = (0..(1u32 << n)).collect();
     masks.sort_by_key(|m| (m.count_ones(), *m));
     for m in masks {
         let d: Devs = devs.iter().enumerate().filter(|(i, _)| m & (1 << i) != 0).map(|(_, x)| *x).collect();
-        let p = if pi != 0 && m & (1 << devs.len()) != 0 { pi } else { 0 };
+        let mut bit = nd;
+        let mut p = 0;
+        if prec_i != 0 {
+            if m & (1 << bit) != 0 {
+                p += prec_i;
+            }
+            bit += 1;
+        }
+        if swap && m & (1 << bit) != 0 {
+            p += 3;
+        }
         if is_bad(&judge(env, si, p, &d)) {
             return (p, d);
         }
@@ -1058,8 +1169,15 @@ fn cause(shape: &Shape, pi: usize, devs: &Devs) -> String {
         .filter(|(_, l)| *l != "absent" && *l != "present")
         .map(|(r, l)| format!("{}:{}", r, l))
         .collect();
-    if pi != 0 {
-        parts.push(format!("precision:{}", PRECS[pi].unwrap()));
+    if parts.is_empty() {
+        // nothing but presence toggles: then they are the cause
+        parts = devs.iter().map(|(f, a)| format!("{}:{}", shape.fields[*f as usize].role, shape.fields[*f as usize].alts[*a as usize].label)).collect();
+    }
+    if pi % 3 != 0 {
+        parts.push(format!("precision:{}", PRECS[pi % 3].unwrap()));
+    }
+    if opt_swap(pi) {
+        parts.push("order:anchor-first".into());
     }
     if parts.is_empty() {
         "baseline".into()
@@ -1071,7 +1189,7 @@ fn cause(shape: &Shape, pi: usize, devs: &Devs) -> String {
 fn outcome(env: &Env, si: usize, pi: usize, devs: &Devs) -> Outcome {
     match judge(env, si, pi, devs) {
         Judgement::Rejected(c) => Outcome::dont_care(c),
-        Judgement::Ok { class } => Outcome::pass(class),
+        Judgement::Ok { class, .. } => Outcome::pass(class),
         Judgement::Bad { clause, detail } => {
             let (mpi, mdevs) = minimise(env, si, pi, devs);
             let shape = &env.shapes[si];
@@ -1083,7 +1201,7 @@ fn outcome(env: &Env, si: usize, pi: usize, devs: &Devs) -> Outcome {
             let det = if mdevs == *devs && mpi == pi {
                 detail
             } else {
-                format!("this case violates clause `{}`; it reduces to the smallest violating sub-case below (clause `{}`)\n=== minimal case ===\n{}\n=== verdict on the minimal case ===\n{}\n=== verdict on this case ===\n{}", clause, mclause, describe(shape, PRECS[mpi], &mdevs), mdetail, detail)
+                format!("this case violates clause `{}`; it reduces to the smallest violating sub-case below (clause `{}`)\n=== minimal case ===\n{}\n=== verdict on the minimal case ===\n{}\n=== verdict on this case ===\n{}", clause, mclause, describe(shape, mpi, &mdevs), mdetail, detail)
             };
             Outcome::violation(sig, det)
         }
@@ -1176,7 +1294,7 @@ fn layout_render(c: &LayoutCase) -> Rendered {
             let mut st = csv_row(&["date", "payee", "amount", "balance"], ',');
             st.push_str(&csv_row(&["2024-03-01", "City Power", c.amount, if c.balance { "100" } else { "" }], ','));
             st.push_str(&csv_row(&["2024-03-02", "Migros Grocery", "-20.5", ""], ','));
-            Rendered { config, statement: st, ext: "csv", records: 2, expect: vec![] }
+            Rendered { config, statement: st, ext: "csv", records: 2, expect: vec![], anchor_txn: None }
         }
         "xml" => {
             let config = format!(
@@ -1192,7 +1310,7 @@ fn layout_render(c: &LayoutCase) -> Rendered {
             e.debit = c.flip;
             let closing = if c.balance { Some("74.5") } else { None };
             let records = 3;
-            Rendered { config, statement: camt_doc(&[e, CamtEntry::anchor(0)], Some("100"), closing), ext: "xml", records, expect: vec![] }
+            Rendered { config, statement: camt_doc(&[e, CamtEntry::anchor(0)], Some("100"), closing), ext: "xml", records, expect: vec![], anchor_txn: None }
         }
         _ => {
             let config = format!(
@@ -1203,7 +1321,7 @@ fn layout_render(c: &LayoutCase) -> Rendered {
                 pending
             );
             let st = format!("04.01.24 05.01.24 City Power {}{}\nUtilities\n10.01.24 11.01.24 Migros Grocery 20.50\nGrocery stores\n", c.amount, if c.flip { " -" } else { "" });
-            Rendered { config, statement: st, ext: "txt", records: 2, expect: vec![] }
+            Rendered { config, statement: st, ext: "txt", records: 2, expect: vec![], anchor_txn: None }
         }
     }
 }
@@ -1235,14 +1353,14 @@ fn layout_describe(c: &LayoutCase) -> String {
 
 fn layout_outcome(env: &Env, c: &LayoutCase) -> Outcome {
     let r = layout_render(c);
-    let j = match crate::fw::guarded(|| judge_rendered(env, &r, PRECS[c.pi])) {
+    let j = match crate::fw::guarded(|| judge_rendered(env, &r, PRECS[c.pi], None)) {
         Ok(j) => j,
         Err(sig) if sig.contains("harness bug") => panic!("{}", sig),
         Err(sig) => Judgement::Bad { clause: format!("crash/{}", sig), detail: "panic while importing this statement".into() },
     };
     match j {
         Judgement::Rejected(cl) => Outcome::dont_care(format!("layout/{}", cl)),
-        Judgement::Ok { class } => Outcome::pass(format!("layout/{}/{}{}", class, c.swept, if c.cjk { "-cjk" } else { "" })),
+        Judgement::Ok { class, .. } => Outcome::pass(format!("layout/{}/{}{}", class, c.swept, if c.cjk { "-cjk" } else { "" })),
         Judgement::Bad { clause, detail } => Outcome::violation(format!("{}/layout:{}", clause, c.swept), detail),
     }
 }
@@ -1326,7 +1444,7 @@ fn run(ctx: &mut Ctx) {
                         continue;
                     }
                     let (r0, c0) = (*env.runs.borrow(), *env.compared.borrow());
-                    ctx.case(|| describe(&env.shapes[si], PRECS[pi], devs), || outcome(&env, si, pi, devs));
+                    ctx.case(|| describe(&env.shapes[si], pi, devs), || outcome(&env, si, pi, devs));
                     let (r1, c1) = (*env.runs.borrow(), *env.compared.borrow());
                     ctx.count("states", r1 - r0);
                     ctx.count("transitions", c1 - c0);
@@ -1349,4 +1467,28 @@ fn run(ctx: &mut Ctx) {
         ctx.count("states", r1 - r0);
         ctx.count("transitions", c1 - c0);
     }
+    // ---- swapped record order (anchor record imported first): all records with one non-plain field less ----
+    let mut swapped = 0u64;
+    for k in 0..maxdev {
+        for si in 0..env.shapes.len() {
+            let sizes: Vec<usize> = env.shapes[si].fields.iter().map(|f| f.alts.len()).collect();
+            let mut list: Vec<Devs> = vec![];
+            for_each_dev(&sizes, k, &mut |d| list.push(d.clone()));
+            for pi in PRECS.len()..2 * PRECS.len() {
+                for devs in &list {
+                    swapped += 1;
+                    if !ctx.next_is_mine() {
+                        ctx.skip_cases(1);
+                        continue;
+                    }
+                    let (r0, c0) = (*env.runs.borrow(), *env.compared.borrow());
+                    ctx.case(|| describe(&env.shapes[si], pi, devs), || outcome(&env, si, pi, devs));
+                    let (r1, c1) = (*env.runs.borrow(), *env.compared.borrow());
+                    ctx.count("states", r1 - r0);
+                    ctx.count("transitions", c1 - c0);
+                }
+            }
+        }
+    }
+    ctx.fact("swapped_order_cases", swapped);
 }
